@@ -202,6 +202,8 @@ func ExploreScenario(prop string, s Scenario, st Step, stats *Stats, emitFinding
 		var fds []Finding
 		if s.Mode == "redefine" {
 			fds = CheckRedef(props, s, o, len(trimZeros(choices)) == 0)
+		} else if s.Mode == "convdiff" {
+			fds = CheckConv(props, s, o)
 		} else {
 			fds = CheckExec(props, s, o)
 		}
@@ -282,6 +284,8 @@ func runAny(s Scenario) Outcome {
 	switch s.Mode {
 	case "redefine":
 		return RunRedefine(s)
+	case "convdiff":
+		return RunConvDiff(s)
 	}
 	return RunScenario(s)
 }
